@@ -1,8 +1,8 @@
 package main
 
 import (
-	"os"
 	"fmt"
+	"os"
 	"reflect"
 	"regexp"
 	"strings"
@@ -307,8 +307,24 @@ func runC19(o *Out) {
 			f := poolF[i]
 			before := append(gts.FeatureSlice(nil), ff...)
 			res := o.Run("fs_insert", true, "fs_insert", featsSx(ff), featSx(f))
+			// the receiver is given room to spare: inserting must leave it (and the
+			// room behind it) alone, so a second insertion from the same table, made
+			// afterwards, cannot disturb the first result
+			recv := make(gts.FeatureSlice, len(ff), len(ff)+3)
+			copy(recv, ff)
+			first := recv.Insert(f)
+			snap := featsSx(first)
+			for _, g := range poolF {
+				_ = recv.Insert(g)
+			}
+			if featsSx(recv) != featsSx(before) || featsSx(first) != snap {
+				o.Violate("insert-wrote-into-its-receiver", join("fs_insert", featsSx(before), featSx(f)), "receiver "+featsSx(recv)+" first result "+featsSx(first))
+			}
 			ff = ff.Insert(f)
-			if res != "ok "+featsSx(ff) {
+			if res != "ok "+featsSx(ff) || snap != featsSx(ff) {
+				if snap != featsSx(ff) {
+					o.Violate("insert-depends-on-spare-room", join("fs_insert", featsSx(before), featSx(f)), snap)
+				}
 				break
 			}
 			checkInserted(o, before, f, ff)
